@@ -2,4 +2,5 @@ HARNESSES = [
     dict(name='chk'),
     dict(name='num'),
     dict(name='timeh', need_lib=True),
+    dict(name='tables', need_schema=True),
 ]
